@@ -94,6 +94,37 @@ theorem C28_insertion_order_irrelevant
     | _, _ => False :=
   C28_perm_invariant hf hd hs hf' hd' hs' H _ _ (applyOps_perm p hok hno) (applyOps_cons hok hno hc) fuel q
 
+/-- `walk` from the root with the model's fuel (depth + 2) never fails on a builder produced by well-formed
+    operations: neither by running out of fuel nor by a digest-less child without a directory.  So the
+    `none, none` case of the order theorems does not occur there. -/
+theorem C28_walk_total (H : Dir → Dg) (ops : List Op) (hok : OpsOK ops) (hno : NoOverlap ops) :
+    (walkAs sf sd ss H (applyOps ops) ((applyOps ops).depth + 2) []).isSome = true := by
+  have r := applyOps_rel hok hno
+  exact walkWith_isSome _ sf sd ss H _ ops r _ [] r.inv.root (by simp)
+
+/-- Insertion order is irrelevant, total form: each builder walked with its own fuel succeeds, and the two
+    results agree (more fuel does not change a successful walk: `walkWith_mono_le`). -/
+theorem C28_insertion_order_irrelevant_total
+    (hf : IsSort (·.name) sf) (hd : IsSort (·.name) sd) (hs : IsSort (·.name) ss)
+    (hf' : IsSort (·.name) sf') (hd' : IsSort (·.name) sd') (hs' : IsSort (·.name) ss')
+    (H : Dir → Dg) (ops₁ ops₂ : List Op) (p : ops₁.Perm ops₂)
+    (hok : OpsOK ops₁) (hno : NoOverlap ops₁) (hc : ConsOps ops₁) :
+    ∃ w₁ w₂, walkAs sf sd ss H (applyOps ops₁) ((applyOps ops₁).depth + 2) [] = some w₁ ∧
+      walkAs sf' sd' ss' H (applyOps ops₂) ((applyOps ops₂).depth + 2) [] = some w₂ ∧
+      w₁.msg = w₂.msg ∧ H w₁.msg = H w₂.msg ∧ w₁.emitted.Perm w₂.emitted := by
+  obtain ⟨w₁, h₁⟩ := Option.isSome_iff_exists.mp (C28_walk_total (sf := sf) (sd := sd) (ss := ss) H ops₁ hok hno)
+  obtain ⟨w₂, h₂⟩ := Option.isSome_iff_exists.mp
+    (C28_walk_total (sf := sf') (sd := sd') (ss := ss') H ops₂ (hok.perm p) (hno.perm p))
+  refine ⟨w₁, w₂, h₁, h₂, ?_⟩
+  have g₁ := walkWith_mono_le _ sf sd ss H _ _ ((applyOps ops₂).depth + 2) [] w₁ h₁
+  have g₂ := walkWith_mono_le _ sf' sd' ss' H _ _ ((applyOps ops₁).depth + 2) [] w₂ h₂
+  rw [Nat.add_comm ((applyOps ops₂).depth + 2)] at g₂
+  have inv := C28_insertion_order_irrelevant hf hd hs hf' hd' hs' H ops₁ ops₂ p hok hno hc
+    ((applyOps ops₁).depth + 2 + ((applyOps ops₂).depth + 2)) []
+  unfold walkAs at inv h₁ h₂
+  rw [g₁, g₂] at inv
+  exact inv
+
 /-- What the builder holds after any list of operations: exactly the root and the prefixes of the named
     directories; in each, the files / symlinks / digest nodes inserted there, in insertion order, plus one
     digest-less node per child directory. -/
